@@ -42,7 +42,15 @@ func randSerial(rng *rand.Rand, width int) *big.Int {
 	if b[0] == 0 {
 		b[0] = 1 + byte(rng.Intn(255))
 	}
-	return new(big.Int).SetBytes(b)
+	x := new(big.Int).SetBytes(b)
+	// one serial in six carries the high bit in its first content octet: a two's complement negative INTEGER, which is what a
+	// 20-octet serial written without the leading zero octet decodes to (crypto/x509 and the reference decoder read it signed)
+	if rng.Intn(6) == 0 {
+		b[0] |= 0x80
+		x = new(big.Int).SetBytes(b)
+		x.Sub(x, new(big.Int).Lsh(big.NewInt(1), uint(8*width)))
+	}
+	return x
 }
 
 var oidReason = asn1.ObjectIdentifier{2, 5, 29, 21}
@@ -105,7 +113,7 @@ func genC06Spec(rng *rand.Rand, nEntries int, pad int) CRLSpec {
 			s.Exts = append(s.Exts, derExt(oidAKI, false, derSeq(derTLV(0x80, ski))))
 		}
 		if rng.Intn(4) != 0 {
-			s.Exts = append(s.Exts, derExt(oidCRLNumber, rng.Intn(6) == 0, derInt(randSerial(rng, 1+rng.Intn(20)))))
+			s.Exts = append(s.Exts, derExt(oidCRLNumber, rng.Intn(6) == 0, derInt(new(big.Int).Abs(randSerial(rng, 1+rng.Intn(20)))))) // CRLNumber ::= INTEGER (0..MAX)
 		}
 		if rng.Intn(3) == 0 {
 			s.Exts = append(s.Exts, derExt(oidUnknown, false, derOctets([]byte("x"))))
